@@ -6,7 +6,7 @@
 From CB Require Import Spec Unstable.
 From Coq Require Import Permutation.
 From CBP Require Import Step RefDefs C02Lemmas Arith AbsLemmas AllOps FaultDefs FaultPrims FaultDropA FaultDropB FaultUser
-     Iters DrainP ExtendIo CmpHash Ctors PhysMoves UnstableEq Access Views RefTruncate FillExtend FaultClone.
+     Iters DrainP ExtendIo CmpHash Ctors PhysMoves UnstableEq Access Views RefTruncate FillExtend FaultFrame SpecCorollaries FaultClone.
 
 
 Theorem C06_fill_with :
@@ -58,6 +58,21 @@ Theorem C06_debug :
   fault_safe (ODebug) FFmt.
 Proof. exact (debug_fault). Qed.
 Print Assumptions C06_debug.
+
+Theorem C06_frame :
+  forall o fk s w k,
+  may_call o fk = false -> fault w = Some (fk, k) ->
+  exec o s w =
+    let '(r, s', w') := exec o s (w_fault w None) in (r, s', w_fault w' (Some (fk, k))).
+Proof. exact (fault_frame). Qed.
+Print Assumptions C06_frame.
+
+Theorem C06_frame_refines :
+  forall o fk s w k,
+  may_call o fk = false -> WF s -> op_ok s o -> fault w = Some (fk, k) ->
+  refines_at_armed o s w fk k.
+Proof. exact (fault_frame_refines). Qed.
+Print Assumptions C06_frame_refines.
 
 Theorem C06_fill_spare_clone :
   forall v, fault_safe (OFillSpare v) FClone.
